@@ -590,28 +590,47 @@ end Shape
 section Setup
 variable [DecidableEq F]
 
-theorem evalTerm_counts_nil (L : List Nat) (x : List F) :
-    evalTerm (L.map (fun v => (v, ([] : List Nat).count v))) x = 1 := by
+theorem evalTerm_zero_powers (L : List Nat) (x : List F) :
+    evalTerm (L.map (fun v => (v, 0))) x = 1 := by
   induction L with
   | nil => rfl
-  | cons v L ih => simp only [List.map_cons, evalTerm_cons, List.count_nil, fpow_zero, ih]; ring
+  | cons v L ih => rw [List.map_cons, evalTerm_cons, ih]; simp
+
+theorem evalTerm_counts_nil (L : List Nat) (x : List F) :
+    evalTerm (L.map (fun v => (v, ([] : List Nat).count v))) x = 1 := by
+  have : (fun v => (v, ([] : List Nat).count v)) = (fun v => (v, 0)) := by
+    funext v; simp
+  rw [this, evalTerm_zero_powers]
+
+theorem evalTerm_bump (L : List Nat) (hL : L.Nodup) (e : Nat) (c : Nat → Nat) (x : List F) :
+    evalTerm (L.map (fun v => (v, c v + if v = e then 1 else 0))) x
+      = (if e ∈ L then getD' x e 0 else 1) * evalTerm (L.map (fun v => (v, c v))) x := by
+  induction L with
+  | nil => simp
+  | cons v L ih =>
+    rw [List.nodup_cons] at hL
+    rw [List.map_cons, List.map_cons, evalTerm_cons, evalTerm_cons, ih hL.2]
+    by_cases hve : v = e
+    · subst hve
+      have h1 : (v ∈ v :: L) := by simp
+      simp only [if_true, h1, hL.1, if_false, fpow_succ']
+      ring
+    · have hev : ¬ e = v := fun hx => hve hx.symm
+      have h1 : (e ∈ v :: L) ↔ e ∈ L := by simp [hev]
+      simp only [hve, if_false, Nat.add_zero, h1]
+      ring
 
 theorem evalTerm_counts_cons (L : List Nat) (hL : L.Nodup) (e : Nat) (m : List Nat) (x : List F) :
     evalTerm (L.map (fun v => (v, (e :: m).count v))) x
       = (if e ∈ L then getD' x e 0 else 1) * evalTerm (L.map (fun v => (v, m.count v))) x := by
-  induction L with
-  | nil => simp
-  | cons v L ih =>
-    simp only [List.nodup_cons] at hL
-    simp only [List.map_cons, evalTerm_cons, ih hL.2, List.count_cons, List.mem_cons]
+  have : (fun v => (v, (e :: m).count v)) = (fun v => (v, m.count v + if v = e then 1 else 0)) := by
+    funext v
+    rw [List.count_cons]
     by_cases hve : v = e
-    · subst hve
-      simp only [beq_self_eq_true, if_true, hL.1, if_false, true_or, fpow_succ']
-      ring
-    · have hev : ¬ e = v := fun hx => hve hx.symm
-      have hbeq : (v == e) = false := by simpa using hve
-      simp only [hbeq, Bool.false_eq_true, if_false, Nat.add_zero, hev, false_or]
-      ring
+    · simp [hve]
+    · have : (e == v) = false := by simpa using fun hx => hve hx.symm
+      simp [hve, this]
+  rw [this, evalTerm_bump L hL e (fun v => m.count v) x]
 
 /-- `term.iter().map(|e| betas[*e]).product()` is the monomial `SparseTerm::new(counts)` at `β⃗` -/
 theorem prodBetas_eq (nv : Nat) (betas : List F) (m : List Nat) (h : ∀ e ∈ m, e < nv) :
